@@ -164,8 +164,8 @@ Str(sh, lab, p) ==
 Infix(sh, lab) == Str(sh, lab, 1)[1]
 
 (* structural code: integers (k, nsym, consts) -- the harness evaluates k ln nsym + sum ln c *)
-IntLabels == {ToString(z) : z \in -12..12}
-IntOf(l) == CHOOSE z \in -12..12 : ToString(z) = l
+IntLabels == {ToString(z) : z \in -64..64}
+IntOf(l) == CHOOSE z \in -64..64 : ToString(z) = l
 Abs(z) == IF z < 0 THEN -z ELSE z
 Code(lab, params) ==
   LET ops  == {lab[k] : k \in {q \in 1..Len(lab) : lab[q] \notin params /\ lab[q] \notin IntLabels}}
